@@ -16,15 +16,23 @@ class C04(Monitor):
         if s.kind == 'recv':
             conn = s.snap['conn_recv']
             single = s.exact
+            # WINDOW_UPDATEs the endpoint queued while working through this very chunk (automatic credit for DATA on
+            # closed streams, acknowledgements of SETTINGS ...) may already count for the later frames of the chunk:
+            # the order inside one call is not visible on the wire, so they widen the tolerance of the burst check
+            slack_conn = sum(f.increment or 0 for f in s.out_frames if f.type == C.WINDOW_UPDATE and f.sid == 0)
+            slack_st = {}
+            for f in s.out_frames:
+                if f.type == C.WINDOW_UPDATE and f.sid:
+                    slack_st[f.sid] = slack_st.get(f.sid, 0) + (f.increment or 0)
             for i, f in enumerate(s.units):
                 if f.type != C.DATA or f.bad:
                     continue
                 if s.snap['closed']:
                     break
                 pre = s.pre[i]
-                over_conn = f.fc_len > 0 and f.fc_len > conn
+                over_conn = f.fc_len > 0 and f.fc_len > conn + (0 if single else slack_conn)
                 receivable = pre is not None and pre.state in ('open', 'hcL')
-                over_stream = receivable and f.fc_len > 0 and f.fc_len > pre.recv_win
+                over_stream = receivable and f.fc_len > 0 and f.fc_len > pre.recv_win + (0 if single else slack_st.get(f.sid, 0))
                 if f.fc_len and (f.fc_len == conn or (receivable and f.fc_len == pre.recv_win)):
                     self.probe('data_at_window_edge')
                     self.nontrivial = True
